@@ -8,7 +8,7 @@ if [ ! -d $M ]; then git -C /repo worktree add --detach $M HEAD >/dev/null 2>&1;
 git -C $M checkout -q -- . ; git -C $M clean -fdq; git -C $M checkout -q --detach $(git -C /repo rev-parse HEAD)
 git -C $M apply --exclude='*zz_demo*' --exclude='*_test.go' $PATCH || { echo "PATCH DOES NOT APPLY"; exit 3; }
 for c in "$@"; do
-  VERIF_REPO=$M ./tools/check $c --tier $TIER > /tmp/seedtest_$c.log 2>&1; rc=$?
-  echo "== $c rc=$rc"; grep -E "VIOLATION|KNOWN-FINDING" /tmp/seedtest_$c.log | cut -c1-300 | head -8
+  VERIF_REPO=$M ./tools/check $c --tier $TIER > /tmp/seedtest_$(basename $M)_$c.log 2>&1; rc=$?
+  echo "== $c rc=$rc"; grep -E "VIOLATION|KNOWN-FINDING" /tmp/seedtest_$(basename $M)_$c.log | cut -c1-300 | head -8
 done
 git -C $M checkout -q -- . ; git -C $M clean -fdq
